@@ -20,6 +20,9 @@ type LimitsSpec struct {
 	BogusAddrs int `json:"bogus_addrs,omitempty"`
 	// Flood: a leecher that stops reading and sends this many requests at once (0 = none).
 	Flood     int  `json:"flood,omitempty"`
+	// LateCancels: before the flood the leecher downloads this many blocks normally and sends a
+	// cancel for each after it has arrived (cancels that cross the block on the wire are normal).
+	LateCancels int `json:"late_cancels,omitempty"`
 	FloodFast bool `json:"flood_fast,omitempty"`
 	// StopAt: the torrent is stopped (and later removed) at the end to check that every
 	// reservation was given back.
@@ -392,6 +395,25 @@ func (m *limitsMon) flooder(host *simrt.Host, sutAddr func() string, r *simrt.Ra
 		}
 		if len(idx) == 0 {
 			return
+		}
+		// late cancels: blocks that already arrived are cancelled afterwards
+		for k := 0; k < m.spec.LateCancels; k++ {
+			i := idx[k%len(idx)]
+			l := uint32(min(16384, T.PieceSize(i)))
+			c.Write(refbt.EncRequest(uint32(i), 0, l))
+			got := false
+			for !got {
+				msg, err := refbt.ReadMsg(c, T.NumPieces, 1<<20)
+				if err != nil {
+					return
+				}
+				got = msg.ID == refbt.MsgPiece || msg.ID == refbt.MsgReject
+			}
+			c.Write(refbt.EncCancel(uint32(i), 0, l))
+			simrt.Count("fault.flood.late_cancel", 1)
+		}
+		if m.spec.LateCancels > 0 {
+			time.Sleep(2 * time.Second)
 		}
 		// stop reading for long enough that the whole burst is processed against a full pipe
 		pair.Stall(1-side, 20*time.Second)
